@@ -1104,6 +1104,79 @@ static void stressRound(int T, long iters, int round)
   delete[] tr;
 }
 
+// ------------------------------------------------------------------ (c) handles stored inside pointees
+// Linked structures: every node holds a handle to the next one and is owned only by its
+// predecessor (the creator's references are dropped).  Walking the chain with `cur = cur->next`
+// (copy) or `cur = std::move(cur->next)` (move) makes each assignment release the last
+// reference of the node that CONTAINS the handle being assigned from.  Oracle: each node is
+// destroyed exactly once, by the step that moves past it, never earlier; ASan watches the
+// assignment operators themselves.
+struct ChainNode;
+static std::vector<int> *g_chainDestroyedAt;  // step at which node i was destroyed (-1 = alive)
+static int g_chainStep = -1;
+typedef memory::IntrusivePtr<memory::RefCountedObject> ObjP;  // IntrusivePtr<T> needs a complete T: link through the base
+struct ChainNode : public memory::RefCount
+{
+  ObjP next;
+  int id;
+  explicit ChainNode(int i) : id(i) {}
+  ~ChainNode() override
+  {
+    if ((*g_chainDestroyedAt)[id] != -1)
+      vh::violation("C08:chain:destroyed-twice", "node " + std::to_string(id) + " destroyed twice", "chain walk");
+    (*g_chainDestroyedAt)[id] = g_chainStep;
+  }
+};
+
+static void chainCase(long k)
+{
+  vh::Rng r(vh::seed(), 8800 + (uint64_t)k);
+  int n        = (int)r.range(2, 12);
+  int mode     = (int)(k % 3);  // 0 copy-assign walk, 1 move-assign walk, 2 raw-pointer walk
+  std::string ctx = "#" + std::to_string(k) + " chain of " + std::to_string(n) + " nodes, walk by " + (mode == 0 ? "cur = cur->next" : mode == 1 ? "cur = std::move(cur->next)" : "cur = cur->next.ptr");
+  std::vector<int> destroyedAt((size_t)n, -1);
+  g_chainDestroyedAt = &destroyedAt;
+  g_chainStep        = -1;
+  std::vector<ChainNode *> raw;
+  for (int i = 0; i < n; ++i)
+    raw.push_back(new ChainNode(i));
+  for (int i = 0; i + 1 < n; ++i)
+    raw[i]->next = raw[i + 1];
+  ObjP cur(raw[0]);
+#define NODE(h) (static_cast<ChainNode *>((h).ptr))
+  for (int i = 0; i < n; ++i)
+    raw[i]->refDec();  // drop the creator's reference: node i is now owned by node i-1 (node 0 by cur)
+  for (int i = 0; i < n; ++i)
+    if (destroyedAt[i] != -1)
+      vh::violation("C08:chain:destroyed-while-referenced", "node " + std::to_string(i) + " destroyed although its predecessor still refers to it", ctx);
+  for (int step = 0; step < n; ++step) {
+    g_chainStep = step;
+    VH_CHECK(cur && NODE(cur)->id == step && cur->useCount() == 1, "C08:chain:wrong-node-or-count",
+             "walker is at node " + std::to_string(cur ? NODE(cur)->id : -1) + " with useCount " + std::to_string(cur ? (int)cur->useCount() : -1) + ", expected node " + std::to_string(step) + " with 1", ctx);
+    if (!cur)
+      break;
+    if (mode == 0)
+      cur = NODE(cur)->next;
+    else if (mode == 1)
+      cur = std::move(NODE(cur)->next);
+    else
+      cur = NODE(cur)->next.ptr;
+    // the step released the last reference of node `step`: destroyed now, and only that node
+    for (int i = 0; i < n; ++i) {
+      int expect = i <= step ? i : -1;
+      if (destroyedAt[i] != expect) {
+        vh::violation(destroyedAt[i] == -1 ? "C08:chain:not-destroyed-at-last-release" : "C08:chain:destroyed-while-referenced",
+                      "after step " + std::to_string(step) + " node " + std::to_string(i) + " was destroyed at step " + std::to_string(destroyedAt[i]) + ", expected " + std::to_string(expect), ctx);
+        g_chainDestroyedAt = 0;
+        return;
+      }
+    }
+  }
+  VH_CHECK(!cur, "C08:chain:walker-not-empty", "after walking off the end the handle is not empty", ctx);
+  vh::count(mode == 0 ? "chain_walks_copy" : mode == 1 ? "chain_walks_move" : "chain_walks_raw");
+  vh::evaluated(vh::hash64(vh::hash64(8080, (uint64_t)n), (uint64_t)mode), true);
+}
+
 // ------------------------------------------------------------------ main
 int main(int argc, char **argv)
 {
@@ -1145,6 +1218,13 @@ int main(int argc, char **argv)
         break;
       }
     }
+  }
+
+  // (c) linked structures
+  if (vh::st().onlyCase < 0 || true) {
+    long nChain = tsan ? 300 : vh::tier(3000, 30000);
+    vh::forkedCases(
+        nChain, [](long k) { chainCase(k); }, 20000, 1000, [](long k) { return "C08-chain #" + std::to_string(k); });
   }
 
   // (b)
